@@ -61,7 +61,7 @@ pub(crate) use rust_cc_thread_local;
 
 pub(crate) mod ghost { include!(concat!(env!("VERIF_KANI_DIR"), "/ghost.rs")); }
 pub(crate) mod probes { include!(concat!(env!("VERIF_KANI_DIR"), "/probes.rs")); }
-pub(crate) use ghost::{unwind_mark, unwinding, unwound};
+pub(crate) use ghost::{limit_panic, unwind_mark, unwinding, unwound};
 pub(crate) mod l2 { include!(concat!(env!("VERIF_KANI_DIR"), "/l2.rs")); }
 pub(crate) mod lib_proofs { include!(concat!(env!("VERIF_KANI_DIR"), "/lib_proofs.rs")); }
 
